@@ -7,18 +7,23 @@ import random
 from harness.common import Ctx, byte_obligation, mi, read_scenario
 from oracles import qcow2 as spec
 from oracles.mem import SymMem, SymOpaque
-from symx import core, files, layouts, loader, replay, stubs
+from symx import core, files, layouts, loader, replay, stubs, summary
 from symx.files import SymFile
 
 SRC = loader.repo_path("dissect/hypervisor/disk/qcow2.py")
 CSRC = loader.repo_path("dissect/hypervisor/disk/c_qcow2.py")
 
 
-def load(zlib_stub):
+def load(zlib_stub, summaries=True):
     m = loader.load(SRC)
     m.lru_cache = loader.identity_lru_cache
     m.c_qcow2 = layouts.CStructProxy(m.c_qcow2)
     m.zlib = zlib_stub
+    # bit-scan helpers (loops over bit positions) are replaced by summaries computed from their real, current code
+    for name in ("ctz", "cto", "clz", "clo"):
+        f = getattr(m, name, None)
+        if callable(f) and summaries:
+            setattr(m, name, summary.lazy(f, 0, (1 << 64) - 1))
     return m
 
 
@@ -37,7 +42,7 @@ def read_task(prop, cfg, tier, seed):
     cs = P.cs
     zlog = []
     zl = stubs.ZlibStub(out_len=lambda key, mx: mx, log=zlog)
-    m = load(zl)
+    m = load(zl, summaries=cfg.get("summaries", not ext))
     ctx = Ctx(prop, "qcow2.read", cfg, tier, seed, engine_kw=dict(max_decisions=cfg.get("max_decisions", 1500)))
     rng = random.Random(seed)
     feats = (spec.INCOMPAT_EXTL2 if ext else 0) | (spec.INCOMPAT_DATA_FILE if dfile else 0)
@@ -72,12 +77,15 @@ def read_task(prop, cfg, tier, seed):
         ext_at = hlen if version == 3 else 72
         E.assume(files.word_at("img", ext_at, 4, "be") == 0)
         offset = E.var("offset", 0, 1 << 62)
-        length = E.var("length", 512, N * cs)
+        length = E.var("length", 512, cfg.get("max_len") or N * cs)
         E.assume(offset % 512 == 0)
         E.assume(length % 512 == 0)
         E.assume(offset < size)
         if not cfg.get("tail"):
             E.assume(offset + length <= size)
+        if cfg.get("sc_index") is not None:
+            # extended L2: the request starts in a fixed sub-cluster (enumerated), so bit masks are constants
+            E.assume((offset % cs) // (cs // 32) == cfg["sc_index"])
         j = E.var("j", 0, 1 << 62)
         mem = SymMem("img")
         dmem = SymMem("data") if dfile else mem
@@ -148,3 +156,62 @@ def read_task(prop, cfg, tier, seed):
             ctx.witness()
 
     return ctx.run(body, cov_files=[SRC, CSRC])
+
+
+def subcluster_range_task(prop, cfg, tier, seed):
+    """Unit check of the extended-L2 helpers: real get_subcluster_range_type(q, entry, bitmap, sc_from) on a fully
+    symbolic 128-bit extended L2 entry, sc_from enumerated. Every sub-cluster of the returned range must have the
+    class the specification assigns (stored / zero / unallocated / compressed), the range is non-empty and stays
+    inside the cluster. cfg: sc_from, data_file."""
+    import types
+
+    sc_from = cfg["sc_from"]
+    dfile = bool(cfg.get("data_file"))
+    core.set_width(cfg.get("W", 72))
+    P = spec.Params(16, True, dfile)
+    m = load(stubs.ZlibStub(out_len=lambda k, mx: mx), summaries=False)
+    ctx = Ctx(prop, "qcow2.subcluster_range", cfg, tier, seed, engine_kw=dict(max_decisions=400))
+    T = m.QCow2SubclusterType
+    CLS = {T.QCOW2_SUBCLUSTER_COMPRESSED: 3, T.QCOW2_SUBCLUSTER_ZERO_PLAIN: 1, T.QCOW2_SUBCLUSTER_ZERO_ALLOC: 1,
+           T.QCOW2_SUBCLUSTER_NORMAL: 2, T.QCOW2_SUBCLUSTER_UNALLOCATED_PLAIN: 0, T.QCOW2_SUBCLUSTER_UNALLOCATED_ALLOC: 0}
+
+    def body(E, ctx):
+        e = E.var("l2_entry", 0, (1 << 64) - 1)
+        bm = E.var("l2_bitmap", 0, (1 << 64) - 1)
+        E.assume(spec.wellformed_entry(e, bm, P))
+        q = types.SimpleNamespace(has_subclusters=True, has_data_file=dfile, subclusters_per_cluster=32)
+        i = E.var("i", 0, 31)
+        vars_ = dict(l2_entry=e, l2_bitmap=bm, i=i)
+
+        def build(model):
+            return dict(entry="qcow2_subcluster_range", params=dict(data_file=dfile), files={},
+                        call=["range", mi(model, e), mi(model, bm), sc_from])
+
+        def expect(model, desc):
+            # expectation: a range all of whose sub-clusters have one specification class
+            ev, bv_ = mi(model, e), mi(model, bm)
+            return dict(spec_classes=[int(spec_class(ev, bv_, k, P)) for k in range(32)], sc_from=sc_from)
+
+        from harness.common import Scenario
+        ctx.scenario = Scenario(vars_, build, expect)
+        sc_type, count = m.get_subcluster_range_type(q, e, bm, sc_from)
+        if sc_type not in CLS:
+            raise AssertionError(f"unexpected sub-cluster type {sc_type} for a well-formed entry")
+        cls = CLS[sc_type]
+        bad = [count < 1, sc_from + count > 32,
+               core.sym_and(i >= sc_from, i < sc_from + count, spec_class(e, bm, i, P) != cls)]
+        ctx.obligation(bad, "sub-cluster range has the wrong class or extent")
+
+    return ctx.run(body, cov_files=[SRC, CSRC])
+
+
+def spec_class(e, bm, i, P):
+    """Specification class of sub-cluster i of an extended L2 entry: 3 compressed, 1 reads as zeros, 2 stored, 0 unallocated."""
+    from oracles.mem import ite
+
+    compressed = ((e >> 62) & 1) == 1
+    host = e & spec.OFFSET_MASK
+    alloc = core.sym_or(host != 0, ((e >> 63) & 1) == 1) if P.data_file else host != 0
+    abit = ((bm >> i) & 1) == 1
+    zbit = ((bm >> (i + 32)) & 1) == 1
+    return ite(compressed, 3, ite(zbit, 1, ite(core.sym_and(alloc, abit), 2, 0)))
